@@ -63,3 +63,67 @@ Definition chk_bcd (has_buf : bool) (r : res (@gout Q (@bstate Q MockACD.accst))
       && all2 ext_eqq (g_obj g) (ob_obj o) && ext_eqq (g_stop g) (ob_stop o)
       && (g_iters g =? ob_iters o)%nat && (b_epochs (g_s g) =? ob_epochs o)%nat
   end.
+
+(* ---------------- ProxNewton: real _solve against dyadic mock kernels ---------------- *)
+Require Import SK.Skel.ProxNewton.
+Definition qsum (l : list Q) : Q := Qred (fold_left Qplus l 0).
+Definition pn_thr (m : mock) (old : Q) (j : Z) : Q :=
+  let v0 := half (old + nthQ (m_T m) j) in
+  if Qltb (Qabs v0) (m_thr m) then 0 else if m_positive m && Qltb v0 0 then 0 else v0.
+
+(* direction: every working-set coordinate moves half way to its target (thresholded); the intercept a quarter of the
+   way to m_B; X_delta_w collects the moves on the carrying samples *)
+Definition pn_mock_direction (m : mock) (fi : bool) (w Xw grad_ws : list Q) (ws : list Z) (_ : Ext Q)
+  : res (list Q * list Q * list Q) :=
+  let deltas := map (fun j => Qred (pn_thr m (nthQ w j) j - nthQ w j)) ws in
+  let Xd0 := map (fun _ => 0) Xw in
+  let Xd := fold_left (fun acc jd => let '(j, d) := jd in upd acc (Z.to_nat (smp Xw j)) (Qred (nthQ acc (smp Xw j) + d)))
+                      (combine ws deltas) Xd0 in
+  let db := Qred ((m_B m - last w 0) / 4) in
+  let deltas' := if fi then deltas ++ [db] else deltas in
+  let Xd' := if fi then map (fun x => Qred (x + db)) Xd else Xd in
+  Ok (deltas', Xd', map (fun j => nthQ (m_lip m) j) ws).
+
+Definition pn_mock_linesearch (m : mock) (fi : bool) (w Xw delta Xdelta : list Q) (ws : list Z)
+  : res (list Q * list Q * list Q) :=
+  let w1 := fold_left (fun acc jd => let '(j, d) := jd in upd acc (Z.to_nat j) (Qred (nthQ acc j + d))) (combine ws delta) w in
+  let w2 := if fi then upd w1 (length w1 - 1) (Qred (last w1 0 + last delta 0)) else w1 in
+  let Xw' := map (fun ab => Qred (fst ab + snd ab)) (combine Xw Xdelta) in
+  bind (mk_grad_ws m w2 Xw' ws) (fun g => Ok (w2, Xw', g)).
+
+Definition pn_mock (m : mock) (p : nat) (fi : bool) : @pn_kernels Q :=
+  {| pk_grad := fun w Xw ws => mk_grad_ws m w Xw ws;
+     pk_subdiff := mk_subdiff m; pk_fixpoint := mk_fixpoint;
+     pk_lip_all := fun Xw => Ok (repeat (Qred (qsum (map Qabs Xw) / 4)) p);
+     pk_sum_raw_grad := fun Xw => Ok (qsum (map (fun x => (x - m_B m) / 2) Xw));
+     pk_gsupp := mk_gsupp; pk_topk := mk_topk;
+     pk_direction := pn_mock_direction m fi; pk_linesearch := pn_mock_linesearch m fi;
+     pk_df_value := fun w Xw => mk_df_value m (firstn p w) Xw; pk_pen_value := mk_pen_value m |}.
+
+Record obs_pn := { op_err : bool; op_w : list Q; op_Xw : list Q; op_obj : list xq; op_stop : xq; op_iters : nat; op_inner : nat }.
+Definition chk_pn (has_buf : bool) (r : res (@gout Q (@pn_state Q))) (o : obs_pn) : bool :=
+  match r with
+  | Err _ => op_err o
+  | Ok g =>
+      negb (op_err o) && all2 qclose (pn_w (g_s g)) (op_w o) && (negb has_buf || all2 qclose (pn_Xw (g_s g)) (op_Xw o))
+      && all2 ext_eqq (g_obj g) (op_obj o) && ext_eqq (g_stop g) (op_stop o)
+      && (g_iters g =? op_iters o)%nat && (pn_inner (g_s g) =? op_inner o)%nat
+  end.
+
+(* ---------------- FISTA: real _solve + real compiled Quadratic datafit and penalties (end to end) ---------------- *)
+Require Import SK.Skel.Fista SK.Gen.ProxFuncs SK.Gen.DfSingle.
+Definition fista_case (X : list (list Q)) (y : list Q) (L : Q) (max_iter : nat) (tol : Q)
+    (score : list Q -> list Q -> list Z -> res (list (Ext Q))) (prox : Q -> Q -> Z -> res Q)
+    (value : list Q -> res (Ext Q)) (w_init : option (list Q)) :=
+  let n := length y in
+  fsolve {| fk_grad := fun z => @Quadratic_gradient Q _ X y (mv n X z);
+            fk_prox := fun w z step => _prox_vec prox w z step;
+            fk_score := fun w g => score w g (zrange 0 (zlen w));
+            fk_objective := fun w => bind (@Quadratic_value Q _ y w (mv n X w)) (fun d => bind (value w) (fun pv => Ok (eadd (Fin d) pv))) |}
+         L max_iter tol (length X) w_init.
+
+Definition chk_fista (r : res (@fstate Q * list (Ext Q) * Ext Q * nat)) (o : obs_run) : bool :=
+  match r with
+  | Err _ => or_err o
+  | Ok (s, obj, stop, n) => negb (or_err o) && all2 qclose (f_w s) (or_w o) && all2 ext_eqq obj (or_obj o) && ext_eqq stop (or_stop o)
+  end.
